@@ -173,3 +173,8 @@ for _pid, _site in {'C01': 'net3d-agree', 'C02': 'net3d-agree', 'C06': 'net3d-co
     PROPS[_pid]['outside'] = PROPS[_pid]['outside'] + NET3D_OUT
 PROPS['C14']['e1'].append(dict(NET2D)); PROPS['C14']['must_reach'].append('net2d-outlier')
 PROPS['C14']['bounds'] = PROPS['C14']['bounds'] + '; plane networks (net2d/outlier): one observation (direction, distance or angle; every 5th quick, every 2nd thorough) with an extra symbolic gross error of +-3 m / +-0.01 rad around tol-abs = 1000: both outcomes explored, results against the oracle with / without the observation'
+
+# the svd contract stub is validated natively on every Adj-level matrix (see check: native validation of the SVD contract)
+for _pid in ('C01', 'C02'):
+    PROPS[_pid]['native_svd'] = True
+    PROPS[_pid]['assumptions'] = list(PROPS[_pid]['assumptions']) + ['native validation: the real SVD<double> iteration is run on every adj/* matrix with one numeric right-hand side and the svd assertions are evaluated in doubles (tolerance 1e-6); this is a concrete run per matrix, not a solver verdict']
